@@ -58,13 +58,27 @@ def classify(prop, f, tr, trace_text):
         if setup_after_skin:
             return 'S13-snapshot-mapper-before-joints'
     if sig in ('asset-content-differs', 'asset-missing'):
-        # S7 / S12: material echo after two updates in one frame; request() guard on the mesh cache
-        kinds = {}
-        for p, w in ops:
-            if w[0] == 'addasset':
-                kinds.setdefault((w[1], w[2]), set()).add(p)
-        if any(len(v) > 1 for v in kinds.values()):
+        m = re.search(r'asset kind (\d+) id (\d+)', f['what'])
+        key = (m.group(1), m.group(2)) if m else None
+        pubs = [p for p, w in ops if w[0] == 'addasset' and (w[1], w[2]) == key]
+        if len(set(pubs)) > 1:
+            # S12: request() guard on the mesh cache + conflicting publishers
             return 'S12-asset-republished-by-another-peer'
+        if len(pubs) > 1:
+            # S7: one handle token for several asset events: the receiver echoes the asset as its own
+            # publication, the echo is relayed, and (S12) the peers that served it ignore later updates
+            return 'S7-asset-echo-after-overwrite'
+        if key is not None:
+            # S23: the host relays live asset traffic of a class it has disabled, but leaves the class out
+            # of the snapshot it sends to later joiners
+            host_sw = None
+            for p, w in ops:
+                if p == 0 and w[0] == 'switches':
+                    host_sw = (w[1], w[2], w[3])
+            k = int(key[0])
+            idx = {0: 0, 2: 0, 1: 1, 3: 2}[k]
+            if host_sw is not None and host_sw[idx] == '0' and pubs and pubs[0] != 0:
+                return 'S23-host-disabled-class-not-in-snapshot'
     return sig
 
 
@@ -114,7 +128,7 @@ def generated_jobs(prop, seed, n, profiles, nops=18, **kw):
     jobs = []
     for i in range(n):
         prof = profiles[i % len(profiles)]
-        text, _ = scen.scenario(seed * 100003 + i * 7 + hash(prop) % 1000, prof, nops=nops, **kw)
+        text, _ = scen.scenario(seed * 100003 + i * 7 + sum(map(ord, prop)) % 1000, prof, nops=nops, **kw)
         jobs.append(('%s_%d_%s' % (prop, i, prof), text))
     return jobs
 
